@@ -3,7 +3,7 @@
     and compatibility relation, never with [merge]). *)
 From V.Lib Require Import Base Hex.
 From Coq Require Import String.
-From V.C13 Require Import Model Spec Postcard.
+From V.C13 Require Import Model Spec Postcard Wire.
 From V.Gen Require Import C13Schema C13Wire.
 Local Open Scope Z_scope.
 
@@ -24,7 +24,8 @@ Inductive case :=
 | CEffects (p : D) (t : option D)
 | CBytes (ver : Z) (v : wval) (b : list N)
 | CMut (b : list N) (impl_ok : bool)
-| CResolved (role : N) (rb ra : D).
+| CResolved (role : N) (rb ra : D)
+| CSerB (p : D) (tbl : list wval) (b : list N) (back : option D) (v1ok : bool).
 
 (** ** Shape *)
 Definition shape_entry_eqb (x y : string * string * list string) : bool :=
@@ -134,11 +135,17 @@ Definition prop_role (role : N) (b : D) (a : option D) (xb xa : option Z) : bool
     with the zero anchor on bundles without spends / actions (known-finding class 1). *)
 Definition anchor_quirk (p : D) : bool := negb (D_eqb (snd (serialize_parse p)) p).
 
+(** writing again what was read back gives the same bytes iff the same version is chosen and the
+    value is read back unchanged *)
+Definition model_stable (p : D) : bool :=
+  let m := serialize_parse p in
+  let m' := serialize_parse (snd m) in
+  N.eqb (fst m') (fst m) && D_eqb (snd m') (snd m).
 Definition run_ser (p : D) (o : outcome (option (Z * bool * option D * bool)) unit) (v1 v2 : option (option D)) : bool :=
   match o with
-  | Ok (Some (ver, _, Some q, _)) =>
+  | Ok (Some (ver, magic, Some q, stable)) =>
       let m := serialize_parse p in
-      (ver =? Z.of_N (fst m)) && D_eqb q (snd m)
+      (ver =? Z.of_N (fst m)) && D_eqb q (snd m) && magic && Bool.eqb stable (model_stable p)
   | _ => false
   end &&
   option_eqb (option_eqb D_eqb) v1 (option_map Some (via_v1 p)) &&
@@ -245,6 +252,22 @@ Definition prop_resolved (rb ra : D) : bool := D_eqb (effects_full rb) (effects_
 Definition run_resolved (rb ra : D) : bool :=
   forallb (fun p => negb (is_shape p)) (diff_paths pczt_schema [] rb ra).
 
+(** ** [Pczt::serialize] / [Pczt::parse] on bytes through the embedding of the logical tree *)
+Definition run_serb (p : D) (tbl : list wval) (b : list N) (back : option D) (v1ok : bool) : bool :=
+  let lf := leaf_of tbl in
+  option_eqb bytes_eqb (serialize_bytes lf p) (Some b) &&
+  Bool.eqb v1ok (match via_v1 p with Some _ => true | None => false end) &&
+  match back, parse_wire W_v1 W_v2 b with
+  | Some q, Ok (ver, v) =>
+      D_eqb q (snd (serialize_parse p)) &&
+      match wire_of lf ver q with Some v' => wval_eqb v' v | None => false end
+  | _, _ => false
+  end.
+Definition prop_serb (b : list N) (back : option D) (v1ok : bool) : bool :=
+  bytes_eqb (firstn 4 b) MAGIC &&
+  Bool.eqb (N.eqb (of_le32 (firstn 4 (skipn 4 b))) 1) v1ok &&
+  match back with Some _ => true | None => false end.
+
 Definition run_case (c : case) : bool :=
   match c with
   | CShape t => shape_ok t
@@ -257,6 +280,7 @@ Definition run_case (c : case) : bool :=
   | CBytes ver v b => run_bytes ver v b
   | CMut b ok => run_mut b ok
   | CResolved _ rb ra => run_resolved rb ra
+  | CSerB p tbl b back v1ok => run_serb p tbl b back v1ok
   end.
 
 Definition prop_case (c : case) : bool :=
@@ -271,6 +295,7 @@ Definition prop_case (c : case) : bool :=
   | CBytes ver _ b => prop_bytes ver b
   | CMut b ok => prop_mut b ok
   | CResolved _ rb ra => prop_resolved rb ra
+  | CSerB _ _ b back v1ok => prop_serb b back v1ok
   end.
 
 (** Class 1 is forgiven only when the round trip fails in exactly the listed way: everything else
@@ -313,5 +338,6 @@ Definition tag_case (c : case) : N :=
                     + (if is_v6 p then 4 else 0)
   | CBytes ver _ _ => 240 + Z.to_N ver
   | CResolved role rb ra => 270 + role + (if D_eqb rb ra then 0 else 10)
+  | CSerB p _ b _ _ => 300 + of_le32 (firstn 4 (skipn 4 b)) + (if anchor_quirk p then 4 else 0)
   | CMut b ok => 250 + (if ok then 1 else 0) + (match parse_wire W_v1 W_v2 b with Ok _ => 2 | Err TooShort => 4 | Err NotPczt => 6 | Err (UnknownVersion _) => 8 | _ => 0 end)
   end%N.
